@@ -128,6 +128,9 @@ def scope_inputs(scope, n1, n2):
     """Return (schema, queries, op names) using the two names in the given scope."""
     if scope == "response_keys":
         return "type Query { user: User }\ntype User { id: ID! name: String }\n", f"query P {{ user {{ {n1}: id {n2}: name }} }}\n"
+    if scope == "response_keys_objects":
+        # the same object-typed field under two response keys with different sub-selections: two keys, two nested classes
+        return "type Query { user: User }\ntype User { id: ID! name: String friend: User }\n", f"query P {{ user {{ {n1}: friend {{ id }} {n2}: friend {{ name }} }} }}\n"
     if scope == "result_fields":
         return f"type Query {{ user: User }}\ntype User {{ {n1}: ID! {n2}: String }}\n", f"query P {{ user {{ {n1} {n2} }} }}\n"
     if scope == "input_fields":
@@ -148,7 +151,7 @@ def scope_inputs(scope, n1, n2):
     raise ValueError(scope)
 
 
-SCOPES = ["response_keys", "result_fields", "input_fields", "variables", "operations", "enum_values", "enum_value_as_default", "typename_alias", "subscription_variables"]
+SCOPES = ["response_keys", "response_keys_objects", "result_fields", "input_fields", "variables", "operations", "enum_values", "enum_value_as_default", "typename_alias", "subscription_variables"]
 
 
 def scope_case(case):
@@ -187,19 +190,20 @@ def scope_case(case):
         def handler(request):
             captured.append(json.loads(request.content))
             body = captured[-1]
-            data = {"response_keys": {"user": {n1: "i", n2: "n"}}, "result_fields": {"user": {n1: "i", n2: "n"}}, "input_fields": {"f": 1},
+            data = {"response_keys": {"user": {n1: "i", n2: "n"}}, "response_keys_objects": {"user": {n1: {"id": "i"}, n2: {"name": "n"}}}, "result_fields": {"user": {n1: "i", n2: "n"}}, "input_fields": {"f": 1},
                     "variables": {"f": 1}, "operations": {"a": 1, "b": 2}, "enum_values": {"e": n2}, "enum_value_as_default": {"f": n1},
                     "typename_alias": {"user": {"__typename": "User", n1: "User", "zq": "i"}}, "subscription_variables": {"f": 1}}[scope]
             return httpx.Response(200, json={"data": data})
         c = clients.make_client(mod.Client, is_async, handler)
         methods = [m for m in vars(mod.Client) if not m.startswith("__")]
         try:
-            if scope in ("response_keys", "result_fields"):
+            if scope in ("response_keys", "result_fields", "response_keys_objects"):
                 r = clients.call(is_async, c.p)
                 u = r.user
                 got = u.model_dump(by_alias=True)
-                if got != {n1: "i", n2: "n"}:
-                    P.append(("names_merged", f"response {{{n1}: 'i', {n2}: 'n'}} read back as {got}"))
+                want = {n1: "i", n2: "n"} if scope != "response_keys_objects" else {n1: {"id": "i"}, n2: {"name": "n"}}
+                if got != want:
+                    P.append(("names_merged", f"response {want} read back as {got}"))
                 if len(type(u).model_fields) != 2:
                     P.append(("names_merged", f"model has fields {list(type(u).model_fields)}"))
                 for fn in type(u).model_fields:
@@ -297,8 +301,17 @@ def scope_case(case):
 
 MODULE_CFGS = [("default", {}), ("sync", {"async_client": False}), ("ot", {"opentelemetry_client": True}), ("sync_ot", {"async_client": False, "opentelemetry_client": True}),
                ("custom_operations", {"enable_custom_operations": True}), ("extract", {"plugins": ["ariadne_codegen.contrib.extract_operations.ExtractOperationsPlugin"]})]
-MC_SCHEMA = "enum E { A }\ninput I { a: Int }\ntype T { id: ID e: E }\ntype Query { t(i: I): T }\n"
+MC_SCHEMA = "enum E { A }\ninput I { a: Int }\ninterface N { id: ID }\ntype T implements N { id: ID e: E }\ntype Query { t(i: I): T n: N }\n"
 MC_FRAG = "fragment F on T { id }\n"
+# document shapes around the operation under test: which of the package's optional modules (fragments.py ...) exist, and why, varies with them
+MC_SHAPES = {
+    "plain_fragment": ("query {op}($i: I) {{ t(i: $i) {{ ...F e }} }}\n" + MC_FRAG.replace("{", "{{").replace("}", "}}")),
+    "no_fragment": "query {op}($i: I) {{ t(i: $i) {{ id e }} }}\n",
+    "unpacked_only": "query {op}($i: I) {{ t(i: $i) {{ ...NF e }} }}\nfragment NF on N {{ id }}\n",
+    "unpacked_and_base": "query {op}($i: I) {{ t(i: $i) {{ ...NF e }} }}\nquery ZzOther {{ n {{ ...NF }} }}\nfragment NF on N {{ id }}\n",
+    "base_and_unpacked": "query AaOther {{ n {{ ...NF }} }}\nquery {op}($i: I) {{ t(i: $i) {{ ...NF e }} }}\nfragment NF on N {{ id }}\n",
+    "unused_fragment": "query {op}($i: I) {{ t(i: $i) {{ id e }} }}\nfragment Unused on T {{ id }}\n",
+}
 
 
 def module_stems(cfg):
@@ -317,11 +330,14 @@ def module_collision_case(opname, cfg):
     import httpx
     from ariadne_codegen.exceptions import CodeGenException
     baseline = cfg.pop("__baseline__")
+    shape = cfg.pop("__shape__", "plain_fragment")
+    if shape != "plain_fragment":
+        baseline = {k: v for k, v in baseline.items() if k != "fragments"}   # (which fragment classes exist is C08's subject)
     out = {"status": "ok", "problems": []}
     P = out["problems"]
     with genpkg.scratch() as d:
         try:
-            pkg, pdir, _ = genpkg.generate(d, MC_SCHEMA, f"query {opname}($i: I) {{ t(i: $i) {{ ...F e }} }}\n" + MC_FRAG, dict(cfg))
+            pkg, pdir, _ = genpkg.generate(d, MC_SCHEMA, MC_SHAPES[shape].format(op=opname), dict(cfg))
         except genpkg.GenError as e:
             out["status"] = "refused" if isinstance(e.exc, CodeGenException) else "gen_error"
             out["error"], out["error_type"] = str(e), e.exc_type
@@ -361,7 +377,7 @@ SUB_NAMES = {"query", "variables", "data", "response", "gql", "self", "kwargs", 
 
 def colliding_pairs(images, names):
     """Pairs of distinct names merged by the mapping, per scope's call site."""
-    site_of = {"response_keys": "result_or_input_field", "result_fields": "result_or_input_field", "input_fields": "result_or_input_field",
+    site_of = {"response_keys": "result_or_input_field", "response_keys_objects": "result_or_input_field", "result_fields": "result_or_input_field", "input_fields": "result_or_input_field",
                "variables": "argument", "operations": "operation"}
     out = []
     for scope, site in site_of.items():
@@ -411,7 +427,10 @@ def main(tier):
         stems = module_stems(cfg)
         for stem in stems:
             for opname in sorted({stem, str_to_pascal_case(stem), stem.upper()}):
-                cases.append(("operation_vs_module", opname, label, True, tuple(sorted(dict(cfg, __baseline__=stems).items(), key=lambda kv: kv[0]))))
+                for shape in MC_SHAPES:
+                    if shape != "plain_fragment" and tier == "quick" and (opname != stem or label not in ("default", "custom_operations")) and stem != "fragments":
+                        continue
+                    cases.append(("operation_vs_module", opname, label + ":" + shape, True, tuple(sorted(dict(cfg, __baseline__=stems, __shape__=shape).items(), key=lambda kv: kv[0]))))
     # enum scope: keyword / Enum-reserved names as sibling values
     for a, b in (("class", "class_"), ("mro", "name"), ("None", "True"), ("_missing_", "value")):
         cases.append(("enum_values", a, b, True))
@@ -428,7 +447,7 @@ def main(tier):
             feats.add(f"pair@{scope}")
         desc = {"scope": scope, "names": [n1, n2], "snake": snake, "cfg": [list(kv) for kv in case[4] if not kv[0].startswith("__")] if len(case) > 4 else []}
         if scope == "operation_vs_module":
-            feats = {f"scope:{scope}", f"module_cfg:{n2}", f"opname:{n1}"}
+            feats = {f"scope:{scope}", f"module_cfg:{n2.split(':')[0]}", f"opname:{n1}"} | ({f"doc_shape:{n2.split(':')[1]}"} if ":" in n2 else set())
         if rep.triage:
             rep.seen(feats)
         if st != "ok":
